@@ -233,6 +233,8 @@ fn pathologies() -> Vec<Patho> {
         }
         s
     }));
+    add("flat-xor-chain", Box::new(|| vec!["tru_m"; N].join(" xor ")));
+    add("flat-xor-symbol-chain", Box::new(|| vec!["num_m == 1"; N].join("^^")));
     add("flat-chain-of-arrays", Box::new(|| format!("any({})", vec!["l_tru_m"; N].join(" and "))));
     add("deep-parens", Box::new(|| format!("{}tru_m{}", "(".repeat(N), ")".repeat(N))));
     add("deep-parens-unclosed", Box::new(|| format!("{}tru_m", "(".repeat(N))));
